@@ -20,11 +20,13 @@ EXTENDS Integers, Sequences, FiniteSets, TLC
 CONSTANTS Genome,        \* sequence of contig names
           Unknown,       \* a name that is neither in the genome nor ignored
           Ignored,       \* a name that is ignored (dropped silently by design); "" = none
+          Ignored2,      \* a second ignored name ("" = none): two ignored contigs can follow each other in the data
           AsBuilt,
           Mechanism      \* "iter_chromosomes" | "synched_stream"
 
 GSet == {Genome[i] : i \in DOMAIN Genome}
-Names == GSet \cup {Unknown} \cup (IF Ignored = "" \/ Mechanism = "synched_stream" THEN {} ELSE {Ignored})
+IgnSet == {x \in {Ignored, Ignored2} : x # ""}
+Names == GSet \cup {Unknown} \cup (IF Mechanism = "synched_stream" THEN {} ELSE IgnSet)
 
 \* all sequences of distinct names
 RECURSIVE Arr(_, _)
@@ -38,7 +40,7 @@ Pos(name) == CHOOSE i \in DOMAIN Genome : Genome[i] = name
 RECURSIVE Filter(_, _)
 Filter(s, drop) == IF s = <<>> THEN <<>>
                    ELSE (IF Head(s) \in drop THEN <<>> ELSE <<Head(s)>>) \o Filter(Tail(s), drop)
-Compatible(groups) == LET g == Filter(groups, {Ignored}) IN
+Compatible(groups) == LET g == Filter(groups, IgnSet) IN
                       /\ \A i \in DOMAIN g : g[i] \in GSet
                       /\ \A i, j \in DOMAIN g : i < j => Pos(g[i]) < Pos(g[j])
 Slots(groups) == [i \in DOMAIN Genome |-> IF \E k \in DOMAIN groups : groups[k] = Genome[i] THEN Genome[i] ELSE "empty"]
@@ -63,7 +65,7 @@ Init == /\ groups \in GroupSeqs
         /\ ci = 1 /\ gi = 1 /\ nextName = "unfetched" /\ seen = {}
         /\ out = <<>> /\ status = "run"
         /\ pulls = 0
-        /\ ctxIgnored = (IF Ignored = "" THEN {} ELSE {Ignored})
+        /\ ctxIgnored = IgnSet
         /\ derived = {}
 
 MaxPulls == Len(Genome) + (IF consumer = "exhaust" THEN 1 ELSE 0)
